@@ -59,6 +59,17 @@ func streamHt(o opts) {
 			}
 			hashes[9], hashes[10], hashes[11] = uint64(n+n-2), uint64(2*n+n-2), uint64(3*n+n-2)
 		}
+		longRun := t%8 == 5
+		if longRun {
+			// more keys in one probe run than any fixed probe budget: 140-270 keys with one hash, then the run's
+			// front removed so that a survivor sits behind that many tombstones
+			nkeys = 140 + r.Intn(130)
+			hashes = make([]uint64, nkeys)
+			hv := r.Uint64()
+			for k := range hashes {
+				hashes[k] = hv
+			}
+		}
 		directed := t%8 == 7
 		if directed {
 			// hashes laid out for the table's actual size: five keys homed at slot 0, three homed at the last three slots,
@@ -156,6 +167,25 @@ func streamHt(o opts) {
 			unwatch()
 			m.count("pinned_tomb_traces")
 		}
+		if longRun {
+			watch(fmt.Sprintf("ht trace %d (one probe run of %d keys)", t, nkeys))
+			for k := 0; k < nkeys; k++ {
+				storeKey(k)
+			}
+			check("a run of colliding keys was stored")
+			for k := 0; k < nkeys; k++ {
+				v, ok := h.Lookup(k, hashes[k])
+				w.O((&toks{}).I(2, int64(k)).U(hashes[k]), (&toks{}).B(ok).I(int64(v)))
+			}
+			for k := 0; k < nkeys-1; k++ {
+				removeKey(k)
+			}
+			check("every key of the run but the last was removed")
+			v, ok := h.Lookup(nkeys-1, hashes[nkeys-1])
+			w.O((&toks{}).I(2, int64(nkeys-1)).U(hashes[nkeys-1]), (&toks{}).B(ok).I(int64(v)))
+			unwatch()
+			m.count("long_run_traces")
+		}
 		if directed {
 			// tombstone saturation: a run of colliding keys, then repeatedly remove the head of the run (a tombstone that
 			// cannot be trimmed) and fill one of the remaining empty slots; a lookup of an absent key must still terminate
@@ -249,6 +279,22 @@ func streamHt(o opts) {
 				}
 				w.O(ints(8, int64(k)), (&toks{}).B(ok).B(had).I(obs()...))
 				m.count("remove_last_object")
+				// a pointer to the object that was replaced is stale: removeExact must leave the table alone
+				k2 := r.Intn(nkeys)
+				l0, t0, s0, _ := h.Counters()
+				if removed, hadOlder, resident := h.RemoveOlderObject(k2); hadOlder {
+					l1, t1, s1, _ := h.Counters()
+					if removed || l1 != l0 || t1 != t0 || s1 != s0 {
+						htViolate(m, fmt.Sprintf("removeExact(item object of key %d that a later write replaced; the replacing object resident: %v) reported %v and changed the table (live %d->%d, tombstones %d->%d): removal is by item identity", k2, resident, removed, l0, l1, t0, t1), fmt.Sprintf("ht trace %d", t))
+					}
+					if _, in := ref[k2]; in {
+						if _, ok := h.Lookup(k2, hashes[k2]); !ok {
+							htViolate(m, fmt.Sprintf("resident key %d lost after removeExact(a stale object of that key)", k2), fmt.Sprintf("ht trace %d", t))
+							delete(ref, k2)
+						}
+					}
+					m.count("remove_older_object")
+				}
 			default:
 				h.Clear()
 				ref = map[int]int{}
